@@ -53,7 +53,7 @@ def c02(res, tier, a):
 
 
 def c03(res, tier, a):
-    comps = _components(a, ["kernels", "modules", "generated", "traps"])
+    comps = _components(a, ["kernels", "modules", "generated", "runtime", "traps"])
     with Scratch(slot()) as sc:
         ws.inject(sc)
         drv = ws.Driver(ws.build_driver(sc))
@@ -68,6 +68,9 @@ def c03(res, tier, a):
         if "generated" in comps:
             from checks import et
             cov.update(et.run_generated_accept_set(res, tier, sc, drv))
+        if "runtime" in comps:
+            from checks import et
+            cov.update(et.run_runtime_traps(res, tier, sc, drv))
         if "traps" in comps:
             from checks import et
             cov.update(et.run_trap_freedom(res, tier, sc, drv))
